@@ -168,6 +168,28 @@ func runC12(c *Ctx) {
 			}
 		}
 	}
+	// methods that may be called from a foreign goroutine while Do runs (Close, IsClosed) touch only mux / closed / conn
+	for _, name := range []string{"Close", "IsClosed"} {
+		fn := p.Method(core.PkgCh, "Client", name)
+		if fn == nil {
+			c.R.Unk(rule, "foreign/"+name, cfg, "", "method missing")
+			continue
+		}
+		okAll := true
+		for f := range reachNoCallbacks(fn) {
+			for _, a := range clientAccesses(f) {
+				switch a.field {
+				case "mux", "closed", "conn":
+				default:
+					okAll = false
+					c.R.Bad(rule, "foreign/"+name+"/"+a.field, cfg, p.Pos(a.at.Pos()), "Client."+name+" may run on another goroutine than Do, and touches Client."+a.field+", which Do and its goroutines use without synchronisation")
+				}
+			}
+		}
+		if okAll {
+			c.R.Ok(rule, "foreign/"+name, cfg, p.Pos(fn.Pos()), "touches only mux, closed, conn")
+		}
+	}
 	// closed only under mux - everywhere in package ch
 	nClosed := 0
 	for _, fn := range p.Funcs() {
@@ -476,11 +498,19 @@ func runC12(c *Ctx) {
 			}
 			for _, b := range fn.Blocks {
 				for _, in := range b.Instrs {
-					st, ok := in.(*ssa.Store)
-					if !ok {
+					var root ssa.Value
+					var st ssa.Instruction
+					switch x := in.(type) {
+					case *ssa.Store:
+						root, st = x.Addr, x
+					case *ssa.MapUpdate:
+						root, st = x.Map, x
+						if u, ok := root.(*ssa.UnOp); ok {
+							root = u.X
+						}
+					default:
 						continue
 					}
-					root := st.Addr
 					for {
 						switch x := root.(type) {
 						case *ssa.FieldAddr:
